@@ -44,7 +44,7 @@ def run(ctx):
             for _ in range(1500 if ctx.tier == "quick" else 25000):
                 v = [rnd.randrange(256) for _ in range(nb)]
                 prog.append({"op": "endian", "a": {"ty": ty, "v": v, "w": other(rnd, v)}})
-    events = run_harness("endian", prog, os.path.join(WORK, "endian.ev.ndjson"))
+    events = run_harness("endian", prog, os.path.join(WORK, "endian.ev.ndjson"), ctx=ctx)
     hosts = set(e["host"] for e in events)
     if hosts != {"le"}:
         raise ToolError("unexpected host byte order %s (Trace_Endian.cfg is written for this sandbox)" % hosts)
